@@ -1,8 +1,8 @@
 (* Alg/C13Samplers.v — the GCP samplers with the random draws as INPUTS (DESIGN §C13).
    Source anchors: pyttb/gcp/samplers.py::uniform, nonzeros, zeros, stratified, semistrat.
    A draw u in [0,1) is the exact rational a / D (numpy's doubles: D = 2^53); the products u*d are taken in exact
-   arithmetic (the rounding of the float product is not modelled).  Subscripts are integers (Z) because the code can
-   produce -1 (finding A-48). *)
+   arithmetic (the rounding of the float product is not modelled).  Subscripts are integers (Z), as observed.
+   All samplers draw subscripts as floor(u*d) (the earlier ceil(u*d)-1 / ceil(u*(d-1)) forms were finding A-48, repaired). *)
 From Coq Require Import List ZArith Lia Bool Arith.
 From PV Require Import Base.Index Np.Array Model.Sparse.
 Import ListNotations.
@@ -63,61 +63,48 @@ Section Draw.
 Variable D : Z.
 Hypothesis Dpos : 0 < D.
 
-(* ceil((a/D) * d) for a, d >= 0 *)
-Definition ceil_mul (a d : Z) : Z := (a * d + D - 1) / D.
-(* uniform / zeros: ceil(u*d) - 1 *)
-Definition draw_sub (a d : Z) : Z := ceil_mul a d - 1.
-(* semistrat "zeros": ceil(u*(d-1)) *)
-Definition draw_sub_semi (a d : Z) : Z := ceil_mul a (d - 1).
+(* uniform / zeros / semistrat: np.floor(u * d).astype(int) with u = a / D *)
+Definition draw_sub (a d : Z) : Z := (a * d) / D.
 
-Lemma ceil_mul_bounds a d : 0 < a <= D -> 0 < d -> 1 <= ceil_mul a d <= d.
+(* every draw u in [0,1) — u = 0.0 included — gives a subscript inside the mode *)
+Lemma draw_sub_range a d : 0 <= a < D -> 0 < d -> 0 <= draw_sub a d < d.
 Proof.
-  intros Ha Hd. unfold ceil_mul. split.
-  - apply Z.div_le_lower_bound; nia.
-  - apply Z.lt_succ_r. apply Z.div_lt_upper_bound; nia.
-Qed.
-
-Lemma draw_sub_range a d : 0 < a <= D -> 0 < d -> 0 <= draw_sub a d < d.
-Proof. intros Ha Hd. unfold draw_sub. pose proof (ceil_mul_bounds a d Ha Hd). lia. Qed.
-
-(* the draw u = 0.0 (numpy's uniform samples [0,1)) gives the subscript -1 *)
-Lemma draw_sub_zero d : draw_sub 0 d = -1.
-Proof. unfold draw_sub, ceil_mul. rewrite Z.mul_0_l, Z.add_0_l. rewrite Z.div_small by lia. reflexivity. Qed.
-
-Lemma draw_sub_semi_range a d : 0 <= a <= D -> 0 < d -> 0 <= draw_sub_semi a d < d.
-Proof.
-  intros Ha Hd. unfold draw_sub_semi, ceil_mul. split.
+  intros Ha Hd. unfold draw_sub. split.
   - apply Z.div_pos; nia.
   - apply Z.div_lt_upper_bound; nia.
 Qed.
 
-(* ... and never the first index of a mode with more than one index, for any draw u > 0 *)
-Lemma draw_sub_semi_never_first a d : 0 < a -> 1 < d -> 0 < draw_sub_semi a d.
+(* ... and every index of the mode is reachable (in particular the first one and the last one), as long as the mode is
+   not longer than the resolution of the draws *)
+Lemma draw_sub_onto d j : 0 < d <= D -> 0 <= j < d -> exists a, 0 <= a < D /\ draw_sub a d = j.
 Proof.
-  intros Ha Hd. unfold draw_sub_semi, ceil_mul.
-  apply Z.lt_le_trans with 1; [lia|]. apply Z.div_le_lower_bound; nia.
+  intros Hd Hj. exists ((j * D + d - 1) / d).
+  pose proof (Z.div_mod (j * D + d - 1) d ltac:(lia)) as Hdm.
+  pose proof (Z.mod_pos_bound (j * D + d - 1) d ltac:(lia)) as Hr.
+  set (a := (j * D + d - 1) / d) in *. set (r := (j * D + d - 1) mod d) in *.
+  assert (Ha0 : 0 <= a) by (apply Z.div_pos; nia).
+  assert (HaD : a < D) by (apply Z.div_lt_upper_bound; nia).
+  split; [lia|]. unfold draw_sub.
+  symmetry. apply Z.div_unique with (r := a * d - j * D); nia.
+Qed.
+
+Lemma draw_sub_first d : 0 < d -> draw_sub 0 d = 0.
+Proof. intros _. unfold draw_sub. rewrite Z.mul_0_l. apply Z.div_0_l. lia. Qed.
+Lemma draw_sub_last d : 0 < d <= D -> draw_sub (D - 1) d = d - 1.
+Proof.
+  intros Hd. unfold draw_sub. symmetry. apply Z.div_unique with (r := D - d); nia.
 Qed.
 
 Definition draw_row (s : shape) (row : list Z) : list Z := zip2 draw_sub row (zshape s).
-Definition draw_row_semi (s : shape) (row : list Z) : list Z := zip2 draw_sub_semi row (zshape s).
-(* a row of draws of the right length, every draw in (0, 1] resp. [0, 1] *)
-Definition pos_draws (s : shape) (row : list Z) : Prop := length row = length s /\ Forall (fun a => 0 < a <= D) row.
-Definition unit_draws (s : shape) (row : list Z) : Prop := length row = length s /\ Forall (fun a => 0 <= a <= D) row.
+(* a row of draws of the right length, every draw in [0, 1) *)
+Definition unit_draws (s : shape) (row : list Z) : Prop := length row = length s /\ Forall (fun a => 0 <= a < D) row.
 Definition pos_shape (s : shape) : Prop := Forall (fun d => (0 < d)%nat) s.
 
-Lemma draw_row_in_range s row : pos_shape s -> pos_draws s row -> in_rangeZ s (draw_row s row).
+Lemma draw_row_in_range s row : pos_shape s -> unit_draws s row -> in_rangeZ s (draw_row s row).
 Proof.
-  unfold draw_row, pos_draws, pos_shape. revert row; induction s as [|d s IH]; intros [|a row] Hs [Hl Hf]; cbn in *; try discriminate; auto.
+  unfold draw_row, unit_draws, pos_shape. revert row; induction s as [|d s IH]; intros [|a row] Hs [Hl Hf]; cbn in *; try discriminate; auto.
   inversion Hs; subst. inversion Hf; subst. split.
   - apply draw_sub_range; [auto|lia].
-  - apply IH; auto.
-Qed.
-
-Lemma draw_row_semi_in_range s row : pos_shape s -> unit_draws s row -> in_rangeZ s (draw_row_semi s row).
-Proof.
-  unfold draw_row_semi, unit_draws, pos_shape. revert row; induction s as [|d s IH]; intros [|a row] Hs [Hl Hf]; cbn in *; try discriminate; auto.
-  inversion Hs; subst. inversion Hf; subst. split.
-  - apply draw_sub_semi_range; [auto|lia].
   - apply IH; auto.
 Qed.
 
@@ -160,13 +147,13 @@ Definition strat_subs (S : sparse V) (nzidx : list Z) (nidx : list nat) (draws :
   nz_subs S nidx ++ zero_subs (sshape S) nzidx draws num_zeros.
 Definition strat_vals (S : sparse V) (nidx : list nat) (num_zeros : nat) : list V :=
   nz_vals S nidx ++ repeat v0 num_zeros.
-(* the repaired sampler: values (and weights) sized by the zero subscripts actually obtained *)
+(* finding C13-S1 (open): what a repaired sampler would return — values (and weights) sized by the zero subscripts actually obtained *)
 Definition strat_vals_fixed (S : sparse V) (nzidx : list Z) (nidx : list nat) (draws : list (list Z)) (num_zeros : nat) :=
   nz_vals S nidx ++ repeat v0 (length (zero_subs (sshape S) nzidx draws num_zeros)).
 
 (* samplers.semistrat: nonzero samples, then unchecked "zero" subscripts *)
 Definition semi_subs (S : sparse V) (nidx : list nat) (draws : list (list Z)) : list (list Z) :=
-  nz_subs S nidx ++ map (draw_row_semi (sshape S)) draws.
+  nz_subs S nidx ++ map (draw_row (sshape S)) draws.
 Definition semi_vals (S : sparse V) (nidx : list nat) (draws : list (list Z)) : list V :=
   nz_vals S nidx ++ repeat v0 (length draws).
 
@@ -179,14 +166,14 @@ Lemma uniform_lengths X draws :
   length (uniform_subs (dshape X) draws) = length draws /\ length (uniform_vals X draws) = length draws.
 Proof. unfold uniform_vals, uniform_subs. now rewrite !map_length. Qed.
 
-Lemma uniform_in_range s draws : pos_shape s -> Forall (pos_draws s) draws ->
+Lemma uniform_in_range s draws : pos_shape s -> Forall (unit_draws s) draws ->
   Forall (in_rangeZ s) (uniform_subs s draws).
 Proof.
   intros Hs Hd. unfold uniform_subs. apply Forall_map. eapply Forall_impl; [|exact Hd].
   intros row Hr. now apply draw_row_in_range.
 Qed.
 
-Lemma uniform_values X draws : pos_shape (dshape X) -> Forall (pos_draws (dshape X)) draws ->
+Lemma uniform_values X draws : pos_shape (dshape X) -> Forall (unit_draws (dshape X)) draws ->
   Forall2 (fun row v => exists i, row = zidx i /\ inb (dshape X) i = true /\ v = den_dense v0 X i)
           (uniform_subs (dshape X) draws) (uniform_vals X draws).
 Proof.
@@ -225,7 +212,7 @@ Proof. unfold zero_subs. now rewrite firstn_length. Qed.
 
 (* zero samples of `zeros` (hence of `stratified`) are inside the tensor and are TRUE zeros *)
 Lemma zero_subs_true_zeros S nzidx draws req :
-  pos_shape (sshape S) -> Forall (pos_draws (sshape S)) draws -> nzidx_ok S nzidx ->
+  pos_shape (sshape S) -> Forall (unit_draws (sshape S)) draws -> nzidx_ok S nzidx ->
   Forall (fun row => exists i, row = zidx i /\ inb (sshape S) i = true /\ den_sp v0 S i = v0)
          (zero_subs (sshape S) nzidx draws req).
 Proof.
@@ -275,9 +262,9 @@ Proof.
 Qed.
 
 Lemma semi_in_range (S : sparse V) draws : pos_shape (sshape S) -> Forall (unit_draws (sshape S)) draws ->
-  Forall (in_rangeZ (sshape S)) (map (draw_row_semi (sshape S)) draws).
+  Forall (in_rangeZ (sshape S)) (map (draw_row (sshape S)) draws).
 Proof.
-  intros Hs Hd. apply Forall_map. eapply Forall_impl; [|exact Hd]. intros row Hr. now apply draw_row_semi_in_range.
+  intros Hs Hd. apply Forall_map. eapply Forall_impl; [|exact Hd]. intros row Hr. now apply draw_row_in_range.
 Qed.
 
 End Samplers.
